@@ -152,11 +152,11 @@ type LatencyMetrics struct {
 
 // Add adds the given latency to the latency metrics.
 func (l *LatencyMetrics) Add(latency time.Duration) {
-	// The estimator is created by the first sample; a zero Min can't
-	// tell "no samples yet" from an observed zero latency.
+	// The estimator is created by the first sample; a zero Min or Max can't
+	// tell "no samples yet" from an observed zero (or negative) latency.
 	first := l.estimator == nil
 	l.init()
-	if l.Total += latency; latency > l.Max {
+	if l.Total += latency; first || latency > l.Max {
 		l.Max = latency
 	}
 	if first || latency < l.Min {
